@@ -24,6 +24,9 @@ def main():
     checks = sys.argv[4:] or [prop]
     patch = os.path.join(src, "patch_%s.diff" % letter)
     demo = os.path.join(src, "demo_%s.py" % letter)
+    own = os.path.join(ROOT, "seeded", "%s_%s" % (prop, letter), "demo_own.py")
+    if os.path.exists(own):
+        demo = own          # demonstration rewritten on the current tree (the original one was neutralised by a fix)
     wt = "/tmp/seedwt_%s_%s" % (prop, letter)
     sh("git -C /repo worktree remove --force %s" % wt)
     rc, out = sh("git -C /repo worktree add -q --detach %s HEAD" % wt)
@@ -76,7 +79,10 @@ def main():
     os.makedirs(dst, exist_ok=True)
     shutil.copy(patch + ".rebased" if res.get("applied_with_fuzz") and os.path.exists(patch + ".rebased") else patch,
                 os.path.join(dst, "patch.diff"))
-    shutil.copy(demo, os.path.join(dst, "demo.py"))
+    if demo != own:
+        shutil.copy(demo, os.path.join(dst, "demo.py"))
+    else:
+        res["demonstration"] = "demo_own.py + case.json (written on the current tree; the sub-agent's demo.py no longer discriminates after a fix commit)"
     meta = {}
     mpath = os.path.join(src, "meta.json")
     if os.path.exists(mpath):
